@@ -175,8 +175,9 @@ def project_asof(pdf):
 
 
 def observe_coll(y, proj, whole, ordered=True):
-    """ordered=False: compute() of the whole is compared with the partitions as a multiset (a hash shuffle does not
-    promise the order in which rows arrive in a partition, and two computations may differ in it)."""
+    """ordered=False: compute() of the whole is compared with the partitions as a multiset (a hash shuffle - also the one a
+    left/right broadcast join applies to the broadcast operand - does not promise the order in which rows arrive in a
+    partition, and two computations may differ in it)."""
     declared = int(y.npartitions)
     divs = tuple(y.divisions)
     known = not any(d is None for d in divs)
@@ -233,7 +234,7 @@ def run_merge(case, how, cfg):
                          npartitions=cfg["npart"], broadcast=cfg["broadcast"], **merge_kwargs(mode, naming))
         strat = strategy_of(y)
         note(strat)
-        return observe_coll(y, lambda p: project_merge(p, mode, how, naming, sfx, cfg["ind"]), cfg["whole"], ordered=not strat.startswith("hash"))
+        return observe_coll(y, lambda p: project_merge(p, mode, how, naming, sfx, cfg["ind"]), cfg["whole"], ordered=strat in ("aligned", "blockwise"))
 
     return guarded(go)
 
@@ -595,7 +596,7 @@ def asof_config(rng, layouts, case):
 # ----------------------------------------------------------------------------- TLC
 def bounds(ctx):
     q = ctx.quick
-    return {"Keys": {0, 1, 2}, "MaxL": 4 if q else 5, "MaxR": 4 if q else 5, "Full": 4 if q else 5, "Mod": 160 if q else 120,
+    return {"Keys": {0, 1, 2}, "MaxL": 4 if q else 5, "MaxR": 4 if q else 5, "Full": 4 if q else 5, "Mod": 160 if q else 200,
             "Salt": ctx.rng.randrange(1000), "HeavyMod": 90 if q else 40, "MaxParts": 3,
             "CFrames": 3, "CRows": 2, "CLabels": {0, 1, 2}, "CMod": 6 if q else 1,
             "AMaxL": 3, "AMaxR": 3 if q else 4, "AKeys": {0, 1, 2} if q else {0, 1, 2, 3}, "AMod": 80 if q else 6}
@@ -762,6 +763,7 @@ def run(ctx):
     items = plan_items(ctx, cases, quota, 1 if q else "all")
     items += random_items(ctx.rng, 200 if q else 3000)
     _tick(ctx, "planned %d items from %d cases" % (len(items), len(cases)))
+    del cases
     bad, done, skips = check_items(ctx, items, "recorded-calls")
     for s in skips:
         ctx.skip(s)
